@@ -220,7 +220,19 @@ func c09(c *Ctx) {
 						return flow.Strict.Any(v, func(y ssa.Value) bool { return isFieldSel(y, "core/v1.Secret", "Data") })
 					}
 					empties := len(a) > 2 && flow.Default.AnyCall(a[2], "github.com/google/go-cmp/cmp/cmpopts.EquateEmpty")
-					if onData(a[0]) && onData(a[1]) && empties {
+					paramOf := func(v ssa.Value) *ssa.Parameter {
+						var p *ssa.Parameter
+						flow.Strict.Any(v, func(y ssa.Value) bool {
+							if q, ok := y.(*ssa.Parameter); ok {
+								p = q
+							}
+							return false
+						})
+						return p
+					}
+					if p0, p1 := paramOf(a[0]), paramOf(a[1]); onData(a[0]) && onData(a[1]) && (p0 == nil || p1 == nil || p0 == p1) {
+						why = "the data comparison does not compare the current with the desired object (both sides derive from the same one): a changed source is never propagated"
+					} else if onData(a[0]) && onData(a[1]) && empties {
 						good = true
 					} else if onData(a[0]) && onData(a[1]) {
 						why = "the data comparison distinguishes nil from empty maps: an empty secret is rewritten on every reconcile"
@@ -310,6 +322,24 @@ func c09(c *Ctx) {
 			}
 		} else {
 			c.R.Unknown(load.FuncName(ptc)+": apply site", c.pos(ptc.Pos()), "expected one create-capable write")
+		}
+		// … and from those resources: the object handed to ExtractConnection is the composed
+		// resource whose connection secret was fetched, never the XR
+		xrP := ssa.Value(ptc.Params[2])
+		fcs := cfgx.Calls(ptc, func(ci ssa.CallInstruction) bool {
+			return strings.HasSuffix(cfgx.CalleeName(ci), "ConnectionDetailsFetcher).FetchConnection")
+		})
+		for _, ex := range cfgx.Calls(ptc, func(ci ssa.CallInstruction) bool {
+			return strings.HasSuffix(cfgx.CalleeName(ci), "ConnectionDetailsExtractor).ExtractConnection")
+		}) {
+			obj := flow.Root(underIface(cfgx.CallArgs(ex)[0]))
+			same := false
+			for _, f := range fcs {
+				if a := cfgx.CallArgs(f); len(a) > 1 && flow.Root(underIface(a[1])) == obj && cfgx.LoopOf(f.Block()) != nil && cfgx.ReachesInIteration(f, ex) {
+					same = true
+				}
+			}
+			c.R.Check(obj != xrP && same, site(ex)+" from the composed resource", c.pos(ex.Pos()), "details are extracted from the composed resource whose secret was fetched in this iteration", "connection details are not extracted from the composed resource of this iteration (the XR or another object is read): values the composition did not produce reach the secret")
 		}
 	}
 
